@@ -21,6 +21,10 @@ pub struct DictSpec {
     pub rep_patch: Option<[u16; 3]>,
 }
 
+type DictKey = (u8, u32, u32, u32, i32, u8);
+static DICT_CACHE: std::sync::LazyLock<std::sync::Mutex<std::collections::HashMap<DictKey, std::sync::Arc<Result<Vec<u8>, String>>>>> =
+    std::sync::LazyLock::new(|| std::sync::Mutex::new(std::collections::HashMap::new()));
+
 pub struct BuiltDict {
     pub bytes: Vec<u8>,
     pub samples: Vec<Vec<u8>>,
@@ -63,13 +67,28 @@ impl DictSpec {
                 make_sample(&vocab, &mut r, len)
             })
             .collect();
-        let bytes = if self.kind % 2 == 0 {
-            refz::train_dict(&samples, (self.size as usize).clamp(512, 112 * 1024))?
+        // training is by far the slowest step of many cases: small dictionaries are memoised
+        // process-wide (pure function of these fields)
+        let key = (self.kind % 2, self.seed, self.size, self.id, self.level, self.vocab);
+        let cached = if self.size <= 8192 { DICT_CACHE.lock().unwrap().get(&key).cloned() } else { None };
+        let bytes = if let Some(b) = cached {
+            b.as_ref().clone()?
         } else {
-            // content: spliced sample material
-            let clen = (self.size as usize).clamp(8, 112 * 1024);
-            let content = make_sample(&vocab, &mut r, clen);
-            refz::finalize_dict(&content, &samples, clen + 4096, self.id.max(1), self.level)?
+            let built = if self.kind % 2 == 0 {
+                refz::train_dict(&samples, (self.size as usize).clamp(512, 112 * 1024))
+            } else {
+                // content: spliced sample material
+                let clen = (self.size as usize).clamp(8, 112 * 1024);
+                let content = make_sample(&vocab, &mut r, clen);
+                refz::finalize_dict(&content, &samples, clen + 4096, self.id.max(1), self.level)
+            };
+            if self.size <= 8192 {
+                let mut c = DICT_CACHE.lock().unwrap();
+                if c.len() < 4096 {
+                    c.insert(key, std::sync::Arc::new(built.clone()));
+                }
+            }
+            built?
         };
         let mut bytes = bytes;
         if let Some(rp) = self.rep_patch {
